@@ -6,6 +6,7 @@ import (
 	"bytes"
 	"fmt"
 	"net"
+	"runtime"
 	"strings"
 
 	"github.com/icon-project/goloop/common/log"
@@ -140,4 +141,191 @@ func (n *VerifC33Node) OnPacket(peerID []byte, hasProto bool, connType int, role
 		return "drop-dup"
 	}
 	return "drop-unknown"
+}
+
+// ---- control branch + relaying with persistent stub peers ----
+
+type VerifC33RelayNode struct {
+	*VerifC33Node
+	ph    *protocolHandler
+	peers []*Peer
+	qlen  []int
+}
+
+// VerifC33NewRelayNode: a PeerToPeer with the given own role, a manager and a
+// protocolHandler (for the real onPacketResult -> manager.send -> Send path).
+func VerifC33NewRelayNode(selfID []byte, nb uint8, bl uint16, selfRole int) *VerifC33RelayNode {
+	n := &VerifC33RelayNode{VerifC33Node: VerifC33NewNode(selfID, nb, bl)}
+	n.p2p.self.setRole(PeerRoleFlag(selfRole))
+	m := &manager{p2p: n.p2p, protocolHandlers: make(map[uint16]*protocolHandler), logger: n.p2p.logger}
+	n.ph = &protocolHandler{m: m, protocol: verifC33Proto, priority: 3, logger: n.p2p.logger}
+	m.protocolHandlers[verifC33Proto.Uint16()] = n.ph
+	n.p2p.onPacketCbFuncs[verifC33Proto.Uint16()] = func(pkt *Packet, p *Peer) {
+		n.delivered++
+		n.last, n.lastPeer = pkt, p
+	}
+	n.p2p.run = true
+	return n
+}
+
+// AddPeer adds a connected stub peer to the set of its connection type.
+func (n *VerifC33RelayNode) AddPeer(id []byte, connType int, hasProto bool) int {
+	c1, _ := net.Pipe()
+	p := newPeer(c1, true, "", n.p2p.logger)
+	p.setID(NewPeerID(id))
+	p.setNetAddress(NetAddress(fmt.Sprintf("10.0.0.%d:8080", len(n.peers)+1)))
+	p.setConnType(PeerConnectionType(connType))
+	pis := newProtocolInfos()
+	if hasProto {
+		pis.Add(verifC33Proto)
+	}
+	p.setProtocolInfos(pis)
+	n.p2p.m[PeerConnectionType(connType)].Add(p)
+	n.peers = append(n.peers, p)
+	n.qlen = append(n.qlen, 0)
+	return len(n.peers) - 1
+}
+
+func verifC33QueueLen(q *PriorityQueue) int {
+	q.lock.Lock()
+	defer q.lock.Unlock()
+	return q.len
+}
+
+// runSendRoutine runs the real sendRoutine until the send queue is drained
+// and the batch is processed, then stops it.
+func (n *VerifC33RelayNode) runSendRoutine() {
+	n.p2p.stopCh = make(chan bool)
+	done := make(chan struct{})
+	go func() {
+		n.p2p.sendRoutine()
+		close(done)
+	}()
+	for {
+		n.p2p.sendQueue.lock.Lock()
+		l := n.p2p.sendQueue.len
+		n.p2p.sendQueue.lock.Unlock()
+		if l == 0 {
+			break
+		}
+		runtime.Gosched()
+	}
+	close(n.p2p.stopCh)
+	<-done
+}
+
+// OnPacketFrom: a packet arrives from persistent peer idx. Emulates the two
+// statements of Peer.receiveRoutine that precede the callback (sender, peer
+// history), calls the real onPacket, and - when the packet was delivered -
+// the real onPacketResult with the reactor's answer isRelay, followed by the
+// real sendRoutine. Returns the outcome and the indices of the peers the
+// packet was enqueued to.
+func (n *VerifC33RelayNode) OnPacketFrom(idx int, role int, src []byte, dest, ttl byte, hash uint64, isRelay bool) (string, []int) {
+	p := n.peers[idx]
+	p.setRole(PeerRoleFlag(role))
+	pkt := &Packet{
+		protocol:     verifC33Proto,
+		subProtocol:  module.ProtocolInfo(0x0100),
+		src:          NewPeerID(src),
+		dest:         dest,
+		ttl:          ttl,
+		hashOfPacket: hash,
+	}
+	pkt.sender = p.ID()
+	p.pool.Put(pkt.hashOfPacket)
+	n.buf.Reset()
+	before := n.delivered
+	wasClosed := p.IsClosed()
+	n.p2p.onPacket(pkt, p)
+	logs := n.buf.String()
+	out := "drop-unknown"
+	switch {
+	case n.delivered == before+1 && n.last == pkt && n.lastPeer == p:
+		out = "deliver"
+	case n.delivered != before:
+		out = "deliver-wrong"
+	case !wasClosed && p.IsClosed():
+		out = "close"
+	case strings.Contains(logs, "undetermined PeerConnectionType"):
+		out = "drop-undetermined"
+	case strings.Contains(logs, "Invalid self-src"):
+		out = "drop-self"
+	case strings.Contains(logs, "Invalid 1hop-src"):
+		out = "drop-1hop"
+	case strings.Contains(logs, "Not authorized"):
+		out = "drop-unauth"
+	case strings.Contains(logs, "Duplicated by footer"):
+		out = "drop-dup"
+	case wasClosed && strings.Contains(logs, "") && !p.ProtocolInfos().Exists(pkt.protocol):
+		out = "close"
+	}
+	var relayed []int
+	if out == "deliver" {
+		d0 := n.delivered
+		n.ph.onPacketResult(pkt, isRelay, nil)
+		n.runSendRoutine()
+		if n.delivered != d0 {
+			out = "deliver-again-by-relay"
+		}
+		for i, q := range n.peers {
+			l := verifC33QueueLen(q.q)
+			if l != n.qlen[i] {
+				relayed = append(relayed, i)
+				n.qlen[i] = l
+			}
+		}
+	}
+	return out, relayed
+}
+
+// OnControl: a control-protocol packet (protocol id 0) with an undecodable
+// payload from a fresh stub peer; reports which handler it was dispatched to.
+func (n *VerifC33Node) OnControl(hasProto bool, ver byte, sub uint16) string {
+	c1, c2 := net.Pipe()
+	defer c2.Close()
+	p := newPeer(c1, true, "", n.p2p.logger)
+	p.setID(NewPeerID([]byte{0xc3, 9, 9, 9, 9, 9, 9, 9, 9, 9, 9, 9, 9, 9, 9, 9, 9, 9, 9, 9}))
+	p.setConnType(p2pConnTypeOther)
+	pi := module.ProtocolInfo(uint16(ver))
+	pis := newProtocolInfos()
+	if hasProto {
+		pis.Add(pi)
+	}
+	p.setProtocolInfos(pis)
+	pkt := &Packet{protocol: pi, subProtocol: module.ProtocolInfo(sub), src: p.ID(), dest: p2pDestPeer, ttl: 1,
+		payload: []byte{0xc1}, lengthOfPayload: 1, hashOfPacket: 1}
+	n.buf.Reset()
+	before := n.delivered
+	state := VerifC33PoolState(n.p2p.packetPool)
+	n.p2p.onPacket(pkt, p)
+	closed := p.IsClosed()
+	if !closed {
+		p.Close("verif")
+	}
+	logs := n.buf.String()
+	if n.delivered != before {
+		return "deliver"
+	}
+	if state != VerifC33PoolState(n.p2p.packetPool) {
+		return "pool-touched"
+	}
+	for _, h := range []struct{ name, tag string }{
+		{"handleQueryResult", "control-queryresp"}, {"handleQuery", "control-queryreq"},
+		{"handleRttRequest", "control-rttreq"}, {"handleRttResponse", "control-rttresp"},
+		{"handleP2PConnectionRequest", "control-connreq"}, {"handleP2PConnectionResponse", "control-connresp"},
+	} {
+		if strings.Contains(logs, h.name) {
+			return h.tag
+		}
+	}
+	if closed && strings.Contains(logs, "not supported p2p control protocol") {
+		return "close-ctlproto"
+	}
+	if closed && hasProto {
+		return "close-ctlsub"
+	}
+	if closed {
+		return "close"
+	}
+	return "control-unknown"
 }
